@@ -137,23 +137,51 @@ type certEnv struct {
 	pool string // "-" | count
 }
 
-// certEnvs: directories with 0..3 certificates (ids 1..4) and a missing directory (id 9).
+var pemCache [][]byte
+
+func certPEM(i int) []byte {
+	for len(pemCache) <= i {
+		pemCache = append(pemCache, makeCertPEM(fmt.Sprintf("C40 test CA %d", len(pemCache))))
+	}
+	return pemCache[i]
+}
+
+// newCertEnv creates <base>/<name> holding k certificates (one of them in a sub-directory, plus a
+// file that must be ignored); id identifies the directory on the wire.  k < 0: the directory is missing.
+func newCertEnv(base, name string, id, k int) certEnv {
+	dir := filepath.Join(base, name)
+	if k < 0 {
+		return certEnv{dir, id, "-"}
+	}
+	os.MkdirAll(filepath.Join(dir, "sub"), 0o755)
+	for i := 0; i < k; i++ {
+		d := dir
+		if i == 2 {
+			d = filepath.Join(dir, "sub")
+		}
+		os.WriteFile(filepath.Join(d, fmt.Sprintf("ca%d.pem", i)), certPEM(i), 0o644)
+	}
+	os.WriteFile(filepath.Join(dir, "notes.txt"), []byte("ignored"), 0o644)
+	return certEnv{dir, id, fmt.Sprintf("%x", k)}
+}
+
+// addCert installs one more certificate into an existing directory (what api.ImportCertificates does to the store).
+func (c *certEnv) addCert() {
+	if c.pool == "-" {
+		return
+	}
+	k, _ := strconv.ParseInt(c.pool, 16, 64)
+	os.WriteFile(filepath.Join(c.dir, fmt.Sprintf("extra%d.pem", k)), certPEM(int(k)), 0o644)
+	c.pool = fmt.Sprintf("%x", k+1)
+}
+
+// makeCertEnvs: directories certs0..certs3 with 0..3 certificates and a missing directory (used by the worker).
 func makeCertEnvs(base string) []certEnv {
 	var out []certEnv
 	for k := 0; k <= 3; k++ {
-		dir := filepath.Join(base, fmt.Sprintf("certs%d", k))
-		os.MkdirAll(filepath.Join(dir, "sub"), 0o755)
-		for i := 0; i < k; i++ {
-			d := dir
-			if i == 2 {
-				d = filepath.Join(dir, "sub")
-			}
-			os.WriteFile(filepath.Join(d, fmt.Sprintf("ca%d.pem", i)), makeCertPEM(fmt.Sprintf("C40 test CA %d-%d", k, i)), 0o644)
-		}
-		os.WriteFile(filepath.Join(dir, "notes.txt"), []byte("ignored"), 0o644)
-		out = append(out, certEnv{dir, k + 1, fmt.Sprintf("%x", k)})
+		out = append(out, newCertEnv(base, fmt.Sprintf("certs%d", k), k+1, k))
 	}
-	out = append(out, certEnv{filepath.Join(base, "certs-missing"), 9, "-"})
+	out = append(out, newCertEnv(base, "certs-missing", 9, -1))
 	return out
 }
 
@@ -264,8 +292,25 @@ func partK(r *vh.Run, base string) {
 		font.UserFontDir = ""
 		model.TrustedCertDir = ""
 	}()
-	certs := makeCertEnvs(base)
 	seq := 0
+	cseq := 0
+	certDirID := map[string]int{"": 0}
+	randCertEnv := func() certEnv {
+		cseq++
+		k := r.Rand.Intn(5) - 1 // -1: missing directory
+		c := newCertEnv(base, fmt.Sprintf("kcerts%d", cseq), cseq, k)
+		certDirID[c.dir] = c.id
+		return c
+	}
+	// what can be observed of the shared state besides the results: the pool cache fields and the raw font table
+	observe := func() string {
+		loaded, dir, rev := pdfcpu.VerifC40CertPoolCache()
+		l := 0
+		if loaded {
+			l = 1
+		}
+		return fmt.Sprintf("s%d.%x.%x.%s", l, certDirID[dir], rev, namesRes(font.VerifC40RawNames()))
+	}
 	randFontEnv := func() fontEnv {
 		seq++
 		k := r.Rand.Intn(10)
@@ -313,20 +358,27 @@ func partK(r *vh.Run, base string) {
 		resetShared()
 		args := []string{"init"}
 		var res []string
-		e := kenv{randFontEnv(), certs[r.Rand.Intn(len(certs))]}
+		e := kenv{randFontEnv(), randCertEnv()}
 		nseg := 1 + r.Rand.Intn(5)
 		for g := 0; g < nseg; g++ {
 			if g > 0 {
-				switch r.Rand.Intn(4) {
+				switch r.Rand.Intn(7) {
 				case 0:
 					e.f = randFontEnv()
 					r.Count("seq:font-dir-changed")
 				case 1:
-					e.c = certs[r.Rand.Intn(len(certs))]
+					e.c = randCertEnv()
 					r.Count("seq:cert-dir-changed")
 				case 2:
 					model.MarkCertificateStoreChanged()
 					r.Count("seq:store-revision-bumped")
+				case 3, 4:
+					e.c.addCert()
+					model.MarkCertificateStoreChanged()
+					r.Count("seq:certificate-imported+revision-bumped")
+				case 5:
+					e.c.addCert() // files changed behind the cache's back: a stale hit is the modelled behaviour
+					r.Count("seq:certificate-added-without-revision-bump")
 				}
 			}
 			args = append(args, "env:"+e.apply())
@@ -336,7 +388,8 @@ func partK(r *vh.Run, base string) {
 				secs = append(secs, s)
 				res = append(res, execSec(s, true))
 			}
-			args = append(args, "secs:"+strings.Join(secs, ","))
+			args = append(args, "secs:"+strings.Join(secs, ","), "obs:")
+			res = append(res, observe())
 		}
 		r.Case("seq", args, strings.Join(res, ","))
 	}
@@ -372,7 +425,7 @@ func partK(r *vh.Run, base string) {
 	for i := 0; i < nsched; i++ {
 		resetShared()
 		api.DisableConfigDir()
-		e := kenv{randFontEnv(), certs[r.Rand.Intn(len(certs))]}
+		e := kenv{randFontEnv(), randCertEnv()}
 		envs := e.apply()
 		nth := 1 + r.Rand.Intn(5)
 		type entry struct {
